@@ -116,7 +116,7 @@ func c09Cases(c runCfg) ([]*scratch.Pkg, []string, map[string]interface{}) {
 		sp := &dialect.Spec{CompParams: map[string]dialect.Param{}}
 		pkg := fmt.Sprintf("p%04d", start/6)
 		bf := baseForms[(start/6)%len(baseForms)]
-		sp.ServerURL, sp.ServerVar = bf.Server, bf.Vars
+		sp.ServerURL, sp.ServerVar, sp.MoreServers = bf.Server, bf.Vars, bf.More
 		type opinfo struct {
 			pi    *dialect.PathItem
 			o     *dialect.Op
